@@ -524,6 +524,25 @@ def check_wrappers(case, rec):
                                     f"krige: {nc} conditions x {nn} targets in one call: estimate / variance differ from the direct solve by {ef:.3g} / {ev:.3g} (tol {tk:.3g})",
                                     dict(tags, kind="wrapper_vs_defining_sum"))
                     if nn == n:
+                        # the dispatching wrappers hand any right-hand side to the kernel unchanged: columns that vanish or whose entries
+                        # cancel exactly (targets beyond the range of every condition, drift rows cancelling the unbiasedness entry)
+                        from gstools.krige import base as kb_
+
+                        ksum = kbuild.load("krigesum", "installed")
+                        mat_ = rs.standard_normal((5, 5))
+                        mat_ = mat_ + mat_.T
+                        vec_ = rs.standard_normal((5, 7))
+                        vec_[:, 2] = [1.0, -1.0, 0.5, -0.5, 0.0]
+                        vec_[:, 4] = 0.0
+                        vec_[:, 5] = [0.0, 0.0, 0.0, 1.0, -1.0]
+                        cnd_ = rs.standard_normal(5)
+                        w1 = np.asarray(lib(kb_._calc_field_krige, mat_, vec_, cnd_, _tags=tags))
+                        k1 = np.asarray(ksum.calc_field_krige(mat_, vec_, cnd_, nt))
+                        w2 = [np.asarray(a_) for a_ in lib(kb_._calc_field_krige_and_variance, mat_, vec_, cnd_, _tags=tags)]
+                        k2 = [np.asarray(a_) for a_ in ksum.calc_field_krige_and_variance(mat_, vec_, cnd_, nt)]
+                        require(bool(np.allclose(w1, k1, rtol=1e-13, atol=0)) and all(bool(np.allclose(a_, b_, rtol=1e-13, atol=0)) for a_, b_ in zip(w2, k2)),
+                                f"krige: dispatching wrapper differs from the kernel on the same arrays (columns with cancelling entries): {w1.tolist()} vs {k1.tolist()}",
+                                dict(tags, kind="wrapper_vs_kernel"))
                         # the estimate-only kernel and the estimate-and-variance kernel deliver the same estimate on one object, also after
                         # the mean of a simple-kriging object was re-assigned between two estimate-only calls
                         ks = gs.krige.Simple(model, cp, cv, mean=0.4)
